@@ -119,6 +119,11 @@ def pairs_for(dim, sa, sb, tier):
             t.append(tmp[system[2]])
         return tuple(float(x) for x in t)
 
+    if dim == 2:
+        # the null vector with different stored azimuths (rho = 0), and against the Cartesian zero
+        za, zb = ((0.0, 0.0) if sa[0] == "xy" else (0.0, 0.25)), ((0.0, 0.0) if sb[0] == "xy" else (0.0, 1.75))
+        out.append(("degenerate-zero", raw(sa, za, {}, {}), raw(sb, zb, {}, {})))
+        out.append(("degenerate-zero-same", raw(sa, za, {}, {}), raw(sb, za if sa[0] == sb[0] else zb, {}, {})))
     if dim >= 3:
         la, lb = {"z": 1.25, "theta": 0.875, "eta": 1.0}, {"z": -0.75, "theta": 2.0, "eta": -0.5}
         ta, tb = {"t": 2.5, "tau": 1.5}, {"t": 2.5, "tau": 1.5}
